@@ -3,6 +3,11 @@
 pyhms is always imported from /repo's current working tree.
 """
 import os
+
+# one BLAS / OpenMP thread per process: the checks parallelise over processes already, linear algebra on 2-30 dimensional
+# matrices gains nothing from threads, and spinning worker threads are charged to the per-execution CPU-time cap
+for _v in ("OPENBLAS_NUM_THREADS", "OMP_NUM_THREADS", "MKL_NUM_THREADS", "NUMEXPR_NUM_THREADS"):
+    os.environ.setdefault(_v, "1")
 import sys
 import warnings
 
